@@ -1027,7 +1027,12 @@ func c08GenSized(r *kit.Rand, i int, small bool) c08Case {
 		pPresent := r.Float64()*0.6 + 0.3
 		for j, k := range keys {
 			if avail[j] <= pi && r.Chance(pPresent) {
-				res.Cfg = append(res.Cfg, c08Cfg{Key: kit.B(k), Val: kit.B(kit.Pick(r, c08Vals)), File: true})
+				// In results built through the API a key that other results carry
+				// as file configuration is now and then INTERNAL configuration
+				// (a tool's SetConfig overriding it): it is then no part of this
+				// result's file configuration, whatever it was in earlier results.
+				file := c.ViaReader || !r.Chance(0.12)
+				res.Cfg = append(res.Cfg, c08Cfg{Key: kit.B(k), Val: kit.B(kit.Pick(r, c08Vals)), File: file})
 			}
 		}
 		for _, k := range c08Internal {
